@@ -111,7 +111,8 @@ Definition file_fails (c : case) (f : fplan) : bool :=
   let fc := file_cfg f in
   (smem (f_path f) (k_existing c) && negb (is_true (c_ptr fc PForceFileWrite)))
   || negb (smem (f_template f) (k_templates c))                       (* "template '..' does not exist" / download error *)
-  || negb (smem (str_of (c_ptr fc PFormatter)) [B "goimports"; B "gofmt"; B "noop"])   (* "unknown formatter type" *)
+  || existsb (fun mc => negb (smem (str_of (c_ptr (snd mc) PFormatter)) [B "goimports"; B "gofmt"; B "noop"]))
+             (f_mocks f)                               (* Append: an unknown formatter on any mock of the file is an error *)
   || (is_true (c_ptr fc PRequireTemplateSchemaExists)
       && match get (str_of (c_ptr fc PTemplateSchema)) (k_schemas c) with
          | Some (Some rej) =>
